@@ -7,7 +7,7 @@ Extraction Language OCaml.
 Extraction "model.ml"
   api_b2n api_gte api_lt api_max_ok api_ver_show api_ver_parse api_nat_succ api_str_len api_z_succ
   api_read api_write api_leaves api_row_vals api_col_names api_cjson_start api_cjson_end api_cjson_meta api_game_version
-  api_emit api_wf api_game_of api_read_map api_mk_replay api_mk_frame api_mk_char api_mk_gecko
+  api_emit api_wf api_game_of api_read_map api_mk_replay api_mk_frame api_mk_gecko
   api_rollbacks api_fix_char api_is_scalar api_melee_string
   api_parse_header api_parse_start api_parse_event api_parse_metadata api_rd_exact api_state_version
   api_frame_view api_arrow_frame api_slpp_archive api_entry_names.
